@@ -180,10 +180,10 @@ LISTING = [
     (("r",), "bare", {}),
 ]
 FILTERS = [None, "rt=humidity", "rt=temperature-c", "rt=temp*", "rt=temperature-c humidity", "rt=hum", "if=sensor", "if=core.b", "if=core*", "ct=0", "ct=40",
-           "ct=4*", "href=/a", "href=/a*", "href=/s/*", "href=/", "rt=*", "rt=nothing", "noequals", "foo=bar", "rt=root", "href=/s/x", "href=/t//x", "href=/t/*"]
+           "ct=4*", "href=/a", "href=/a*", "href=/s/*", "href=/", "rt=*", "rt=nothing", "noequals", "foo=bar", "rt=root", "href=/s/x", "href=/t//x", "href=/t/*", "rt=", "href=", "ct="]
 
 
-FILTERS2 = ["rt=humidity", "rt=temp*", "if=sensor", "if=core*", "ct=0", "href=/a*", "href=/s/*", "rt=nested", "foo=bar", "noequals", "rt=*"]
+FILTERS2 = ["if=", "rt=humidity", "rt=temp*", "if=sensor", "if=core*", "ct=0", "href=/a*", "href=/s/*", "rt=nested", "foo=bar", "noequals", "rt=*"]
 
 
 def mk_listing(reach, two=False):
